@@ -599,6 +599,32 @@ func reachingStores(al *ssa.Alloc, load ssa.Instruction) ([]*ssa.Store, bool) {
 				return nil, false // address stored somewhere
 			}
 		case *ssa.UnOp, *ssa.DebugRef:
+		case *ssa.MakeClosure:
+			// captured by a closure that only READS the variable (a deferred
+			// `if err != nil { cleanup }`): the stores are still the local ones
+			cf, _ := y.Fn.(*ssa.Function)
+			if cf == nil {
+				return nil, false
+			}
+			for i, bv := range y.Bindings {
+				if bv != ssa.Value(al) {
+					continue
+				}
+				if i >= len(cf.FreeVars) || cf.FreeVars[i].Referrers() == nil {
+					return nil, false
+				}
+				for _, fr := range *cf.FreeVars[i].Referrers() {
+					switch u := fr.(type) {
+					case *ssa.UnOp:
+						if u.Op != token.MUL {
+							return nil, false
+						}
+					case *ssa.DebugRef:
+					default:
+						return nil, false
+					}
+				}
+			}
 		default:
 			return nil, false
 		}
